@@ -5,6 +5,7 @@ import sandboxexec_check as sc
 THEOREMS = [
     "Pedal.SandboxExec.c05_ladder_well_formed",
     "Pedal.SandboxExec.c05_ladder_balanced",
+    "Pedal.SandboxExec.c05_import_transparent",
     "Pedal.SandboxExec.c05_probe_restores",
     "Pedal.SandboxExec.c05_restored_after_execute",
     "Pedal.SandboxExec.c05_restored_after_op",
@@ -22,15 +23,19 @@ NOTES = [
     "the patched targets (probed: which targets, that start;stop and start;start;stop;stop restore them)",
     "the handler ladder is read from the AST of Sandbox._execute; a statement the translator does not recognise "
     "becomes Act.unknown and c05_ladder_well_formed / c05_ladder_balanced fail",
-    "tracer styles enter the theorems as the probed pair (installs, restores); the harness pre-installs a trace "
-    "function before every execution so that a style that resets it to None is visible",
+    "tracer styles enter the theorems as the probed triple (installs, restores, restores when re-entered inside "
+    "its own `with`); the harness pre-installs a trace function before every execution so that a style that resets "
+    "it to None is visible",
+    "a nested import of a student file is modelled only as re-entering the tracer (Sandbox._import is read from its "
+    "AST: exec inside the tracer's `with`, no try, no mocking calls - c05_import_transparent); that it patches "
+    "nothing else is sampled by the histories that import helper.py",
     "student code that itself calls sys.settrace is outside the model (not generated)",
     "timeouts (threaded execution, _execute_with_timeout) are C14's and not modelled",
 ]
 
 
 def refuted(info):
-    bad = [n for n, inst, rest in info.get("tracers", []) if inst and not rest]
+    bad = [n for n, inst, rest, rest_nested in info.get("tracers", []) if inst and not (rest and rest_nested)]
     if bad:
         return [{"statement": "Pedal.SandboxExec.C05_Restored_Full",
                  "refuted_by": "Pedal.SandboxExec.c05_restored_counterexample",
